@@ -297,7 +297,7 @@ class Exec:
 
 def split_trace(path, hists, variant):
     evs = []
-    with open(path) as f:
+    with open(path, errors="replace") as f:
         for ln, line in enumerate(f, 1):
             line = line.strip()
             if not line:
@@ -817,12 +817,27 @@ def crash_key(c):
     if m:
         sm = re.search(r"SUMMARY: AddressSanitizer: (\S+) \S*?([^/\s]+:\d+)\S* in (\S+)", err)
         kind = m.group(1)
-        key = "asan:%s:%s" % (kind, sm.group(3) if sm else "?")
-        c["summary"] = "%s at %s in %s" % (kind, sm.group(2), sm.group(3)) if sm else kind
+        # the innermost frame of the access that lies in the library's sources (the access itself is often inside
+        # an interceptor: fprintf, memcpy, strlen ...)
+        fn = loc = None
+        for fm in re.finditer(r"^\s+#\d+ 0x[0-9a-f]+ in (\S+) (\S+?):(\d+)", err.split("\n\n", 1)[0], re.M):
+            if os.path.abspath(fm.group(2)).startswith(os.path.abspath(vlib.REPO) + os.sep):
+                if fn is None or Symb.GENERIC.match(fn):      # prefer the caller of a container helper
+                    fn, loc = fm.group(1), "%s:%s" % (os.path.basename(fm.group(2)), fm.group(3))
+                if not Symb.GENERIC.match(fn):
+                    break
+        if fn is None and sm:
+            fn, loc = sm.group(3), sm.group(2)
+        key = "asan:%s:%s" % (kind, fn or "?")
+        c["summary"] = "%s at %s in %s" % (kind, loc, fn) if fn else kind
         # an access beyond the bounds of a block that came from the user's allocator (its allocation stack goes
         # through the ledger) is a misuse of that block; overflows of stack / global / libc objects are not ours
         alloc_stack = err.split("allocated by thread", 1)[1][:1500] if "allocated by thread" in err else ""
         user_block = kind == "heap-buffer-overflow" and re.search(r"\bin (l_malloc|l_calloc|l_realloc|block_new)\b", alloc_stack)
+        if fn in (None, "eval"):
+            # the access is made by the MIR PROGRAM (interpreter executing its load/store, or generated code): a
+            # program that leaves its data sections is a code-generation matter, not the library's use of a block
+            user_block = None
         return key, kind in ASAN_IN_SCOPE or bool(user_block)
     # A crash of the uninstrumented build cannot be attributed: a wild read that lands in a quarantined block and a
     # read through a stale pointer both end in a dereference of the 0xDD poison.  The asan variant runs the same
